@@ -620,7 +620,7 @@ func runSeq(jc *JobCtx, sc seqCfg, firstOps []int) {
 			}
 		}
 		outcome = fmt.Sprintf("live=%d phys=%d", len(e.m.liveSet()), len(ph))
-		if len(rep.Samples) < 3 && len(hist) >= sc.depth-1 {
+		if len(rep.Samples) < 2 && len(hist) >= sc.depth-1 {
 			rep.Samples = append(rep.Samples, fmt.Sprintf("%s: history [%s] -> %s", jc.Job.Name, strings.Join(hist, "; "), outcome))
 		}
 	}
@@ -628,7 +628,7 @@ func runSeq(jc *JobCtx, sc seqCfg, firstOps []int) {
 	if sc.check != nil {
 		horizon = 50000000
 	}
-	jc.Sched(SchedOpts{Model: vrt.CostPreempt, Bound: 0, NoDetCheck: true, Horizon: horizon, Outcome: func(r *vrt.Result) string { return outcome }}, body, nil)
+	jc.Sched(SchedOpts{Model: vrt.CostPreempt, Bound: 0, NoDetCheck: true, NoSamples: true, Horizon: horizon, Outcome: func(r *vrt.Result) string { return outcome }}, body, nil)
 	rep.Extra["distinct_states"] += int64(len(seen))
 	rep.Nontrivial = int64(len(seen))
 	rep.Bound = fmt.Sprintf("depth<=%d", sc.depth)
